@@ -782,6 +782,44 @@ theorem final_iff_no_exception (v : Variant) (max : Nat) (sc : Scope) (msgs : Li
     obtain ⟨cs, _, hs⟩ := emitted_is_prefix v app
     rcases hs with h | ⟨st, hds, h⟩ <;> simp [h, finalBody, bodies]
 
+/-! ### every message reaches the protocol: `call_soon` is synchronous -/
+
+open Extracted.WsgiSites in
+/-- **`call_soon` waits for each send on both workers** — re-decided against the current source (the extractor reads
+    `_call_soon` of asyncio/task_group.py and the `call_soon` argument of trio/task_group.py) -/
+theorem call_soon_synchronous (w : Worker) : callSoonWaits w = true := by
+  cases w <;> decide
+
+private theorem acceptedFrom_waits (susp : Nat → Bool) : ∀ (msgs : List Msg) (i : Nat),
+    acceptedFrom true susp i false msgs = msgs := by
+  intro msgs
+  induction msgs with
+  | nil => intro i; simp [acceptedFrom]
+  | cons m ms ih => intro i; cases m <;> simp [acceptedFrom, ih]
+
+/-- **nothing the application produced is lost on the way to the protocol, however the transport paces the sends**: on
+    either worker, for every pattern of suspending sends, the stream accepts exactly the messages `run_app` issued, in
+    order -/
+theorem accepted_all (w : Worker) (susp : Nat → Bool) (msgs : List Msg) : accepted w susp msgs = msgs := by
+  simp [accepted, call_soon_synchronous, acceptedFrom_waits]
+
+/-- output fidelity end to end (both workers, both shapes of `run_app`, any pacing) -/
+theorem output_fidelity_delivered (w : Worker) (susp : Nat → Bool) (v : Variant) (max : Nat) (sc : Scope) (msgs : List ReqMsg)
+    (body : Bytes) (env : Environ) (call : List StartArgs) (chunks : List Bytes) (hasClose selfIter iterHasClose : Bool)
+    (st : Nat) (hs : Headers)
+    (hc : collectBody max msgs = .complete body) (he : buildEnviron sc body = .ok env)
+    (hstart : callPhase none call = .ok (some (st, hs))) :
+    accepted w susp (handleHttp v max sc msgs ⟨call, false, chunks.map .yield, hasClose, selfIter, false, iterHasClose⟩).sent =
+      .start st hs :: bodies chunks ++ [finalBody] := by
+  rw [accepted_all]
+  exact (output_fidelity v max sc msgs body env call chunks hasClose selfIter iterHasClose st hs hc he hstart).1
+
+/-- why the hypothesis matters (a `call_soon` that does not wait): with the start message's send suspended, the body is
+    dropped — the client would get the head and a truncated body -/
+theorem fire_and_forget_loses_body :
+    acceptedFrom false (fun _ => true) 0 false [.start 200 [], .body "a".b true, finalBody] = [.start 200 []] := by
+  decide +kernel
+
 /-! ### close() -/
 
 open Extracted.WsgiSites in
